@@ -28,7 +28,7 @@ def activate(m: Optional["Monitor"]):
 
 class LinkAcct:
     __slots__ = ("name", "bw", "tight", "link", "carried", "counted", "rejected", "inflight", "nested_adm", "reported",
-                 "peak", "went_down")
+                 "peak", "went_down", "came_up", "down_at_start")
 
     def __init__(self, name: str, bw: float, tight: bool, link):
         self.name, self.bw, self.tight, self.link = name, bw, tight, link
@@ -43,6 +43,8 @@ class LinkAcct:
         self.reported: set = set()  # clauses already reported for this link in this tick
         self.peak = 0.0
         self.went_down = False
+        self.came_up = False  # endpoint_up ran this tick
+        self.down_at_start = False  # an end interface was disabled right after pre_timestep
 
 
 class Monitor:
@@ -74,6 +76,8 @@ class Monitor:
         self.half_tight = False  # some tight link reached >= 50 % this tick
         self.half_tight_air = False
         self.reset_seen = False
+        self.down_attempts = 0  # admission checks on a link one of whose end interfaces was disabled
+        self.never_enabled_links = 0
         self.nontrivial_ticks = 0
 
     # ---------------------------------------------------------------------------------------------------------------
@@ -99,6 +103,8 @@ class Monitor:
             if a.carried != 0.0:
                 self.violate("traffic-during-pre-timestep:wired",
                              f"tick {self.tick}: {a.name} carried {a.carried!r} Mbit while pre_timestep ran")
+            a.down_at_start = not (a.link.endpoint_a.enabled and a.link.endpoint_b.enabled)
+            self.check_is_up(a, "right after pre_timestep")
         if self.airspace is not None:
             for hz, v in self.airspace.bandwidth_load.items():
                 if v != 0.0:
@@ -108,10 +114,33 @@ class Monitor:
                 if v != 0.0:
                     self.violate("traffic-during-pre-timestep:wireless", f"tick {self.tick}: frequency {hz} sent {v!r}")
 
+    def check_is_up(self, a: LinkAcct, when: str):
+        """Link.is_up is 'both end interfaces enabled' (its docstring, and what the property's last clause rests on)."""
+        link = a.link
+        both = bool(link.endpoint_a.enabled and link.endpoint_b.enabled)
+        if bool(link.is_up) != both and "is_up" not in a.reported:
+            a.reported.add("is_up")
+            self.violate("is_up-disagrees-with-end-interfaces:wired",
+                         f"tick {self.tick}: {a.name} is_up={link.is_up} {when} while endpoint_a.enabled="
+                         f"{link.endpoint_a.enabled} endpoint_b.enabled={link.endpoint_b.enabled}")
+
     def end_of_step(self, state_links: Optional[Dict[str, Dict]]):
         """After advance_timestep: loads within bandwidth, describe_state reports the same load."""
         for a in self.links.values():
             load = a.link.current_load
+            self.check_is_up(a, "at the end of the step")
+            down_now = not (a.link.endpoint_a.enabled and a.link.endpoint_b.enabled)
+            if a.down_at_start and down_now and not a.came_up:
+                # an end interface was disabled for the whole tick: the link carried nothing and shows no load
+                if load != 0.0:
+                    self.violate("load-on-down-link:wired",
+                                 f"tick {self.tick}: {a.name} had a disabled end interface for the whole tick "
+                                 f"(a.enabled={a.link.endpoint_a.enabled}, b.enabled={a.link.endpoint_b.enabled}) and "
+                                 f"reports current_load={load!r}")
+                if a.carried != 0.0:
+                    self.violate("carried-on-down-link:wired",
+                                 f"tick {self.tick}: {a.name} had a disabled end interface for the whole tick and carried "
+                                 f"{a.carried!r} Mbit")
             if load > a.bw + EPS and "load" not in a.reported:
                 self.violate("current_load>bandwidth:wired:end-of-step",
                              f"tick {self.tick}: {a.name} current_load={load!r} bandwidth={a.bw!r} at the end of the step")
@@ -149,9 +178,18 @@ class Monitor:
         a = self.links.get(id(link))
         if a is None:
             return
+        both = bool(link.endpoint_a.enabled and link.endpoint_b.enabled)
+        if not both:
+            self.down_attempts += 1
+        self.check_is_up(a, "at an admission check")
+        if result and not both and "admit-down" not in a.reported:
+            a.reported.add("admit-down")
+            self.violate("frame-admitted-on-down-link:wired",
+                         f"tick {self.tick}: {a.name} can_transmit_frame returned True with endpoint_a.enabled="
+                         f"{link.endpoint_a.enabled} endpoint_b.enabled={link.endpoint_b.enabled}")
         if result:
             self.adm[(id(link), id(frame))] = (link.current_load, frame.size_Mbits)
-        elif link.is_up:
+        elif both:
             self.refusals += 1
             self.refusals_tick += 1
             if self.send_stack and self.send_stack[-1]["frame"] is frame:
@@ -288,6 +326,11 @@ class Monitor:
         a = self.links.get(id(link))
         if a is not None:
             a.went_down = True
+
+    def note_link_up(self, link):
+        a = self.links.get(id(link))
+        if a is not None:
+            a.came_up = True
 
     # ---------------------------------------------------------------------------------------------------------------
     # wireless
@@ -437,7 +480,7 @@ def install():
         if "send_frame" in cls.__dict__:
             _wrap_send(cls)
 
-    o_can, o_tx, o_down = Link.can_transmit_frame, Link.transmit_frame, Link.endpoint_down
+    o_can, o_tx, o_down, o_up = Link.can_transmit_frame, Link.transmit_frame, Link.endpoint_down, Link.endpoint_up
 
     def can_transmit_frame(self, frame):
         r = o_can(self, frame)
@@ -463,7 +506,14 @@ def install():
 
     Link.can_transmit_frame = can_transmit_frame
     Link.transmit_frame = transmit_frame
+    def endpoint_up(self):
+        m = _ACTIVE[0]
+        if m is not None:
+            m.note_link_up(self)
+        return o_up(self)
+
     Link.endpoint_down = endpoint_down
+    Link.endpoint_up = endpoint_up
 
     a_can, a_tx = AirSpace.can_transmit_frame, AirSpace.transmit
 
